@@ -63,6 +63,35 @@ def expand(p, expr, fn, depth=4, cond=False):
     return expr
 
 
+class _Expander(ast.NodeTransformer):
+    def __init__(self, p, fn, depth, stop):
+        self.p, self.fn, self.depth, self.stop = p, fn, depth, stop
+
+    def visit_Name(self, node):
+        if not isinstance(node.ctx, ast.Load) or self.depth <= 0 or node.id in self.stop:
+            return node
+        d = unique_def(self.fn, node.id)
+        if d is None or isinstance(d, (ast.List, ast.Dict, ast.Set, ast.ListComp, ast.DictComp, ast.SetComp, ast.Lambda)):
+            return node
+        import copy
+        sub = _Expander(self.p, self.fn, self.depth - 1, self.stop | {node.id}).visit(copy.deepcopy(d))
+        return ast.copy_location(sub, node)
+
+
+def deep_expand(p, expr, fn, depth=3, stop=()):
+    """a copy of expr in which every local name with exactly one plain definition in fn is replaced (recursively) by that definition -
+    used only for MATCHING shapes (aliases such as `user = connection.user`, `granted = getattr(...)`, `command = cmd.lower()`), never for reporting"""
+    import copy
+    if fn is None or expr is None:
+        return expr
+    return _Expander(p, fn, depth, frozenset(stop)).visit(copy.deepcopy(expr))
+
+
+def dsrc(p, expr, fn):
+    """normalised source of the alias-expanded expression"""
+    return src(deep_expand(p, expr, fn))
+
+
 def closure_lookup(p, fn, name):
     """(function, defs) of the nearest enclosing function (starting at fn) that binds `name`"""
     f = fn
@@ -367,3 +396,83 @@ def enum_paths(p, fn, unroll=1, extra_raise=None, body=None):
 
 def stmt_events(ev):
     return [e[1] for e in ev if e[0] == "stmt"]
+
+
+# ---------------------------------------------------------------- guards evaluated as tables
+class _Unknown(Exception):
+    pass
+
+
+def eval_expr(p, e, env, fn=None):
+    """concrete evaluation of a guard expression under a valuation env: {normalised source text: value}; names with a single
+    definition are expanded; anything outside the vocabulary raises _Unknown"""
+    s = src(e)
+    if s in env:
+        return env[s]
+    if isinstance(e, ast.Constant):
+        return e.value
+    if isinstance(e, ast.Name) and fn is not None:
+        d = unique_def(fn, e.id)
+        if d is not None:
+            return eval_expr(p, d, env, fn)
+        raise _Unknown(s)
+    if isinstance(e, ast.UnaryOp) and isinstance(e.op, ast.Not):
+        return not eval_expr(p, e.operand, env, fn)
+    if isinstance(e, ast.UnaryOp) and isinstance(e.op, ast.USub):
+        return -eval_expr(p, e.operand, env, fn)
+    if isinstance(e, ast.BoolOp):
+        r = None
+        for v in e.values:
+            r = eval_expr(p, v, env, fn)
+            if isinstance(e.op, ast.And) and not r:
+                return r
+            if isinstance(e.op, ast.Or) and r:
+                return r
+        return r
+    if isinstance(e, ast.Compare):
+        left = eval_expr(p, e.left, env, fn)
+        for op, c in zip(e.ops, e.comparators):
+            right = eval_expr(p, c, env, fn)
+            try:
+                ok = {ast.Is: lambda a, b: a is b, ast.IsNot: lambda a, b: a is not b, ast.Eq: lambda a, b: a == b, ast.NotEq: lambda a, b: a != b,
+                      ast.Gt: lambda a, b: a > b, ast.GtE: lambda a, b: a >= b, ast.Lt: lambda a, b: a < b, ast.LtE: lambda a, b: a <= b,
+                      ast.In: lambda a, b: a in b, ast.NotIn: lambda a, b: a not in b}[type(op)](left, right)
+            except TypeError:
+                raise _Unknown(s)      # e.g. None > 0: the real code would raise; callers treat it as unreachable-by-error
+            if not ok:
+                return False
+            left = right
+        return True
+    if isinstance(e, (ast.Tuple, ast.List, ast.Set)):
+        return [eval_expr(p, x, env, fn) for x in e.elts]
+    raise _Unknown(s)
+
+
+def reachable_under(p, node, fn, env):
+    """is `node` reachable (all its enclosing tests and guard clauses satisfied) under the valuation env? None if a test is outside the vocabulary
+    (a test that is definitely not satisfied makes the node unreachable whatever the others are - this also models short-circuit `a and b`)"""
+    unknown = False
+    for t, pol in all_guards(p, node, fn):
+        try:
+            if bool(eval_expr(p, t, env, fn)) != pol:
+                return False
+        except _Unknown:
+            unknown = True
+    return None if unknown else True
+
+
+def hnames(p, h):
+    """exception class names of an except handler, resolving `except <name>:` through a single local/enclosing/module definition of a tuple"""
+    if h.type is None:
+        return ["BaseException"]
+    if isinstance(h.type, ast.Name):
+        fn = p.enclosing_function(h)
+        f, ds = closure_lookup(p, fn, h.type.id) if fn is not None else (None, [])
+        vals = [v for k, v, _ in ds if k == "assign"]
+        if not vals:
+            mod = p.module_of.get(h)
+            v = p.module_const(mod, h.type.id) if mod else None
+            vals = [v] if v is not None else []
+        if len(vals) == 1 and isinstance(vals[0], ast.Tuple):
+            return [exc_name(x) for x in vals[0].elts]
+    return handler_names(h)
